@@ -38,8 +38,15 @@ var (
 	red   = color.New(color.FgRed)
 )
 
+// maxRound bounds the number of digits numbers are rounded to: the cost of
+// rounding grows with 10^|Round|.
+const maxRound = 1000
+
 // Render renders this table to a string.
 func (r *TextRenderer) Render(t *Table, w io.Writer) error {
+	if r.Round > maxRound || r.Round < -maxRound {
+		return fmt.Errorf("invalid number of digits %d: must be between %d and %d", r.Round, -maxRound, maxRound)
+	}
 	r.table = t
 	color.NoColor = !r.Color
 
